@@ -630,6 +630,10 @@ func newEmptyResultset(info *SelectPlan, stmt *ast.SelectStmt) *mysql.Resultset 
 
 	r.Fields = make([]*mysql.Field, fieldLen)
 	for i, expr := range stmt.Fields.Fields {
+		if i >= fieldLen {
+			// the columns added for GROUP BY / ORDER BY are not part of the result
+			break
+		}
 		r.Fields[i] = &mysql.Field{}
 		if expr.WildCard != nil {
 			r.Fields[i].Name = []byte("*")
